@@ -67,11 +67,15 @@ Cat(ss) == FlattenSeq(ss)
 (*  pk    thread -> roots whose finish / cancel signal sits in the thread's *)
 (*        overflow list (its queue was full); exc: roots whose parked       *)
 (*        signal was dropped when the thread exited with a full queue       *)
+(*  tm    span / event name -> clock brackets of the calls that stamp its     *)
+(*        times: [b0, b1] monotonic and [w0, w1] wall clock around the call *)
+(*        that starts it, [e0, e1] monotonic around the call that ends it   *)
+(*        (only when the events carry clock readings)                       *)
 (*  viol  Seq([p, w, d, k])                                                 *)
 AbsInit(cfg) ==
   [cfg |-> cfg, sp |-> EmptyFn, rt |-> EmptyFn, ctx |-> EmptyFn, sc |-> EmptyFn, ls |-> EmptyFn,
    att |-> EmptyFn, exp |-> {}, opt |-> {}, dl |-> {}, never |-> {}, claims |-> {}, hints |-> {}, cyc |-> {},
-   fl |-> EmptyFn, cmds |-> EmptyFn, cut |-> {}, qs |-> {}, pk |-> EmptyFn, exc |-> {}, got |-> <<>>, viol |-> <<>>]
+   fl |-> EmptyFn, cmds |-> EmptyFn, cut |-> {}, qs |-> {}, pk |-> EmptyFn, exc |-> {}, got |-> <<>>, gotrecs |-> <<>>, tm |-> EmptyFn, viol |-> <<>>]
 
 Recording(a) == a.cfg.enabled /\ a.cfg.ready
 
@@ -182,6 +186,54 @@ Settle(a, t, refused) ==
   IF refused
   THEN [a EXCEPT !.exp = @ \ mine, !.opt = @ \cup mine]
   ELSE [a EXCEPT !.exp = (@ \ mine) \cup {[e EXCEPT !.due = TRUE] : e \in mine}]
+
+----------------------------------------------------------------------------
+(* Clock brackets (C18).  Every call event carries the monotonic clock m and the wall clock w read *)
+(* just before the call, every return event the readings just after.  Times are integers in one   *)
+(* unit (microseconds in recorded traces, logical ticks in the model).                            *)
+Timed(e) == "m" \in DOMAIN e
+TolM(a) == a.cfg.tolm    \* slack on monotonic differences
+TolW(a) == a.cfg.tolw    \* slack on wall-clock readings (clock anchor of the conversion)
+NoTm == [b0 |-> None, b1 |-> None, w0 |-> None, w1 |-> None, e0 |-> None, e1 |-> None]
+TmBegin(a, n, e) == IF Timed(e) THEN [a EXCEPT !.tm = Put(@, n, [NoTm EXCEPT !.b0 = e.m, !.w0 = e.w])] ELSE a
+TmBegun(a, n, e) == IF Timed(e) /\ Has(a.tm, n) /\ a.tm[n].b1 = None THEN [a EXCEPT !.tm[n].b1 = e.m, !.tm[n].w1 = e.w] ELSE a
+TmEnd(a, n, e) == IF Timed(e) /\ Has(a.tm, n) /\ a.tm[n].e0 = None THEN [a EXCEPT !.tm[n].e0 = e.m] ELSE a
+TmEnded(a, n, e) == IF Timed(e) /\ Has(a.tm, n) /\ a.tm[n].e0 # None /\ a.tm[n].e1 = None THEN [a EXCEPT !.tm[n].e1 = e.m] ELSE a
+\* local spans of a scope that are still open end when the scope is closed / collected
+OpenIn(a, s) == {a.sc[s].ents[i].n : i \in {j \in DOMAIN a.sc[s].ents : a.sc[s].ents[j].k = "span" /\ a.sc[s].ents[j].open}}
+RECURSIVE TmAll(_, _, _, _)
+TmAll(a, names, e, ended) ==
+  IF names = {} THEN a
+  ELSE LET n == CHOOSE x \in names : TRUE IN
+       TmAll(IF ended THEN TmEnded(a, n, e) ELSE TmEnd(a, n, e), names \ {n}, e, ended)
+
+\* a delivered record against the brackets of its span
+TimeBad(a, rec) ==
+  IF ~("b" \in DOMAIN rec) \/ ~Has(a.tm, rec.name) THEN "ok"
+  ELSE LET t == a.tm[rec.name] pct == rec.d \div 100 IN
+       IF t.b1 # None /\ (rec.b + TolW(a) < t.w0 \/ rec.b > t.w1 + TolW(a)) THEN "begin-outside-its-call"
+       ELSE IF t.b1 # None /\ t.e0 # None /\ rec.d + TolM(a) + pct < t.e0 - t.b1 THEN "duration-too-short"
+       ELSE IF t.e1 # None /\ rec.d > t.e1 - t.b0 + TolM(a) + pct THEN "duration-too-long"
+       ELSE IF \E i \in DOMAIN rec.events :
+                 LET ev == rec.events[i] IN
+                 "ts" \in DOMAIN ev /\ Has(a.tm, ev.name) /\ a.tm[ev.name].w1 # None /\
+                 (ev.ts + TolW(a) < a.tm[ev.name].w0 \/ ev.ts > a.tm[ev.name].w1 + TolW(a)) THEN "event-time-outside-its-call"
+       ELSE "ok"
+
+\* local spans of one batch: a child's interval lies in its parent's, siblings do not overlap,
+\* events lie in the span they were recorded in (same clock anchor, so no tolerance beyond rounding)
+NestBad(a, got, recs) ==
+  LET idx == {i \in DOMAIN recs : "b" \in DOMAIN recs[i]}
+      loc(i) == got[i].own
+      sameCopy(i, j) == got[i].r = got[j].r /\ got[i].ci = got[j].ci
+      child(i, j) == loc(i) /\ loc(j) /\ sameCopy(i, j) /\ got[i].par = got[j].n        \* i is a child of j
+      sib(i, j) == i # j /\ loc(i) /\ loc(j) /\ sameCopy(i, j) /\ got[i].par = got[j].par
+      R == 2 IN
+  IF \E i, j \in idx : child(i, j) /\ (recs[i].b + R < recs[j].b \/ recs[i].b + recs[i].d > recs[j].b + recs[j].d + R) THEN "child-outside-parent"
+  ELSE IF \E i, j \in idx : sib(i, j) /\ recs[i].b <= recs[j].b /\ recs[i].b + recs[i].d > recs[j].b + R /\ recs[j].d > 0 /\ recs[i].d > R THEN "siblings-overlap"
+  ELSE IF \E i \in idx : loc(i) /\ \E k \in DOMAIN recs[i].events :
+            "ts" \in DOMAIN recs[i].events[k] /\ (recs[i].events[k].ts + R < recs[i].b \/ recs[i].events[k].ts > recs[i].b + recs[i].d + R) THEN "event-outside-span"
+  ELSE "ok"
 
 ----------------------------------------------------------------------------
 (* API events *)
@@ -396,8 +448,12 @@ RetClosure(a, e) ==
   IF w # None /\ e.cc # w THEN Viol(a, "C16", "closure-calls", <<e.op, w, e.cc>>) ELSE a
 
 RetElapsed(a, e) ==
-  LET want == Has(a.sp, e.h) /\ ~a.sp[e.h].noop IN
-  IF want # e.some THEN Viol(a, IF a.cfg.enabled THEN "C18" ELSE "C16", "elapsed-some", <<e.h, want, e.some>>) ELSE a
+  LET want == Has(a.sp, e.h) /\ ~a.sp[e.h].noop
+      a1 == IF want # e.some THEN Viol(a, IF a.cfg.enabled THEN "C18" ELSE "C16", "elapsed-some", <<e.h, want, e.some>>) ELSE a IN
+  IF want /\ e.some /\ Timed(e) /\ Has(a.tm, e.h) /\ a.tm[e.h].b1 # None
+  THEN LET t == a.tm[e.h] lo == e.m0 - t.b1 hi == e.m - t.b0 IN
+       IF e.us + TolM(a) + e.us \div 100 < lo \/ e.us > hi + TolM(a) + e.us \div 100 THEN Viol(a1, "C18", "elapsed-value", <<e.h, e.us, lo, hi>>) ELSE a1
+  ELSE a1
 
 ----------------------------------------------------------------------------
 (* report(batch) *)
@@ -464,8 +520,10 @@ TakeRecord(a, rec) ==
                  ELSE IF cb = "missing-attachment" /\ e.r \in a.qs THEN Viol(a3, "C09", "attachment-lost-after-refused-start", rec)
                  ELSE ViolK(a3, IF a.rt[e.r].dcancel THEN "C04" ELSE "C06", cb, [rec |-> rec, must |-> e.must],
                             IF cb = "missing-attachment" /\ cid \in a.cut THEN "cut"
-                            ELSE IF cb \in {"missing-attachment", "duplicate-attachment"} /\ twin THEN "twin" ELSE None) IN
-       [a4 EXCEPT !.got = Append(@, e)]
+                            ELSE IF cb \in {"missing-attachment", "duplicate-attachment"} /\ twin THEN "twin" ELSE None)
+           tb == TimeBad(a, rec)
+           a5 == IF tb = "ok" THEN a4 ELSE Viol(a4, "C18", tb, [rec |-> rec, tm |-> a.tm[rec.name]]) IN
+       [a5 EXCEPT !.got = Append(@, e), !.gotrecs = Append(@, rec)]
 
 RECURSIVE TakeAll(_, _, _)
 TakeAll(a, recs, i) == IF i > Len(recs) THEN a ELSE TakeAll(TakeRecord(a, recs[i]), recs, i + 1)
@@ -492,9 +550,11 @@ BatchRules(a0, a, got) ==
   IF a.cfg.cancelable THEN go(a, roots) ELSE a
 
 Report(a, e) ==
-  LET a1 == TakeAll([a EXCEPT !.got = <<>>], e.recs, 1)
-      a2 == BatchRules(a, a1, a1.got) IN
-  [a2 EXCEPT !.got = <<>>]
+  LET a1 == TakeAll([a EXCEPT !.got = <<>>, !.gotrecs = <<>>], e.recs, 1)
+      a2 == BatchRules(a, a1, a1.got)
+      nb == NestBad(a, a1.got, a1.gotrecs)
+      a3 == IF nb = "ok" THEN a2 ELSE Viol(a2, "C18", nb, a1.gotrecs) IN
+  [a3 EXCEPT !.got = <<>>, !.gotrecs = <<>>]
 
 ----------------------------------------------------------------------------
 (* collector cycles, rings, statistics *)
@@ -543,7 +603,7 @@ RetAny(a, e) ==
 ----------------------------------------------------------------------------
 Refused(e) == F(e, "refused") = TRUE
 
-Call(a, e) ==
+Call0(a, e) ==
   CASE e.op = "root"      -> CallRoot(a, e)
     [] e.op = "child"     -> CallChild(a, e)
     [] e.op = "childl"    -> CallChildLocal(a, e)
@@ -565,8 +625,30 @@ Call(a, e) ==
     [] e.op = "flush"     -> CallFlush(a, e)
     [] OTHER              -> a
 
+\* clock brackets first (they need the scope as it is before the call closes it)
+Call(a, e) ==
+  LET a1 == CASE e.op \in {"root", "child", "childl", "rootctx"} -> TmBegin(a, e.h, e)
+              [] e.op = "lenter" -> TmBegin(a, e.l, e)
+              [] e.op \in {"levent", "sevent"} -> TmBegin(a, e.evt.name, e)
+              [] e.op = "drop" -> TmEnd(a, e.h, e)
+              [] e.op = "lexit" -> TmEnd(a, e.l, e)
+              [] e.op = "dropg" /\ Has(a.sc, e.g) -> TmAll(a, OpenIn(a, e.g), e, FALSE)
+              [] e.op \in {"lccollect", "lcdrop"} /\ Has(a.sc, e.c) -> TmAll(a, OpenIn(a, e.c), e, FALSE)
+              [] OTHER -> a IN
+  Call0(a1, e)
+
+RetTm(a, e) ==
+  CASE e.op \in {"root", "child", "childl", "rootctx"} -> TmBegun(a, e.h, e)
+    [] e.op = "lenter" -> TmBegun(a, e.l, e)
+    [] e.op \in {"levent", "sevent"} -> TmBegun(a, e.evt.name, e)
+    [] e.op = "drop" -> TmEnded(a, e.h, e)
+    [] e.op = "lexit" -> TmEnded(a, e.l, e)
+    [] e.op = "dropg" /\ Has(a.sc, e.g) -> TmAll(a, {x.n : x \in {y \in Rng(a.sc[e.g].ents) : y.k = "span"}}, e, TRUE)
+    [] e.op \in {"lccollect", "lcdrop"} /\ Has(a.sc, e.c) -> TmAll(a, {x.n : x \in {y \in Rng(a.sc[e.c].ents) : y.k = "span"}}, e, TRUE)
+    [] OTHER -> a
+
 Ret(a, e) ==
-  LET a0 == Parked(RetAny(a, e), e)
+  LET a0 == Parked(RetAny(RetTm(a, e), e), e)
       a1 == CASE Has(e, "panic") -> a0      \* no results to look at
               [] e.op = "root"   -> RetRoot(a0, e)
               [] e.op = "rootctx" -> RetRootCtx(a0, e)
